@@ -399,4 +399,94 @@ theorem evict_all (U : Bytes → Tx) (p : Pool) (h : Inv U p) :
 
 end C5
 
+/-! ### the main statements -/
+
+/-- eviction keeps the invariant -/
+theorem Inv.evict (U : Bytes → Tx) (p : Pool) (h : Inv U p) : Inv U (evict Variant.current p) :=
+  (evict_all U p h).1
+
+theorem ListsSorted.evict (U : Bytes → Tx) (p : Pool) (h : Inv U p) (hso : ListsSorted p) :
+    ListsSorted (SV.TxCache.evict Variant.current p) := (evict_all U p h).2 hso
+
+theorem ListsSorted.applyThreshold (U : Bytes → Tx) (p : Pool) (sn : Bytes × Nat) (h : Inv U p) (hso : ListsSorted p) :
+    ListsSorted (SV.TxCache.applyThreshold Variant.current p sn) := (applyThreshold_all U p sn h).2.1 hso
+
+theorem addTx_all (U : Bytes → Tx) (p : Pool) (t : Tx) (h : Inv U p) (hso : ListsSorted p) (ht : WfTx U t) :
+    Inv U (addTx Variant.current p t).1 ∧ ListsSorted (addTx Variant.current p t).1 := by
+  rw [addTx_eq_core]
+  split
+  · exact Inv.addTxCore U _ t (Inv.evict U p h) (ListsSorted.evict U p h hso) ht
+  · exact Inv.addTxCore U p t h hso ht
+
+/-- insertion, with or without eviction.
+    NOTE the extra hypothesis `hso` (strict sortedness of the sender lists), see `Inv.addTx_noEvict` and the
+    counter-example `addTx_noEvict_needs_sorted` in `PoolInv.lean`; reachable pools satisfy it. -/
+theorem Inv.addTx (U : Bytes → Tx) (p : Pool) (t : Tx) (h : Inv U p) (hso : ListsSorted p) (ht : WfTx U t) :
+    Inv U (addTx Variant.current p t).1 := (addTx_all U p t h hso ht).1
+
+theorem ListsSorted.addTx (U : Bytes → Tx) (p : Pool) (t : Tx) (h : Inv U p) (hso : ListsSorted p) (ht : WfTx U t) :
+    ListsSorted (SV.TxCache.addTx Variant.current p t).1 := (addTx_all U p t h hso ht).2
+
+inductive Op where
+  | add (t : Tx) | rm (h : Bytes) | clear
+
+def applyOp (p : Pool) : Op → Pool
+  | .add t => (addTx Variant.current p t).1
+  | .rm h => (removeTxByHash p h).1
+  | .clear => SV.TxCache.clear Variant.current p
+
+theorem reachable_all (U : Bytes → Tx) (ops : List Op) : ∀ (p : Pool), Inv U p → ListsSorted p →
+    (∀ t, Op.add t ∈ ops → WfTx U t) → Inv U (ops.foldl applyOp p) ∧ ListsSorted (ops.foldl applyOp p) := by
+  induction ops with
+  | nil => intro p h hso _; exact ⟨h, hso⟩
+  | cons op ops ih =>
+    intro p h hso hw
+    rw [List.foldl_cons]
+    have hw' : ∀ t, Op.add t ∈ ops → WfTx U t := fun t ht => hw t (List.mem_cons_of_mem _ ht)
+    cases op with
+    | add t =>
+      have ht := hw t (List.mem_cons_self ..)
+      exact ih _ (Inv.addTx U p t h hso ht) (ListsSorted.addTx U p t h hso ht) hw'
+    | rm k => exact ih _ (Inv.removeTxByHash U p k h) (ListsSorted.removeTxByHash U p k h hso) hw'
+    | clear => exact ih _ (Inv.clear U p h) (ListsSorted.clear _ p) hw'
+
+/-- every reachable pool satisfies the invariant (selection does not modify the pool, it is a pure function of it) -/
+theorem Inv.reachable (U : Bytes → Tx) (cfg : Config) (ops : List Op) (hw : ∀ t, Op.add t ∈ ops → WfTx U t) :
+    Inv U (ops.foldl applyOp (Pool.init cfg)) :=
+  (reachable_all U ops _ (Inv.init U cfg) (ListsSorted.init cfg) hw).1
+
+/-- …and its sender lists are strictly sorted -/
+theorem ListsSorted.reachable (U : Bytes → Tx) (cfg : Config) (ops : List Op) (hw : ∀ t, Op.add t ∈ ops → WfTx U t) :
+    ListsSorted (ops.foldl applyOp (Pool.init cfg)) :=
+  (reachable_all U ops _ (Inv.init U cfg) (ListsSorted.init cfg) hw).2
+
+/-! ### the pre-repair variants break the invariant -/
+
+/-- the pre-repair variants break the invariant: concrete counter-examples (clear keeps numBytes; an emptied sender list
+    stays registered; eviction leaves a same-nonce sibling in the hash index) -/
+theorem legacy_clear_counterexample : ∃ (cfg : Config) (t : Tx),
+    let p := SV.TxCache.clear Variant.legacy (addTx Variant.legacy (Pool.init cfg) t).1
+    p.byHash = [] ∧ p.numBytes ≠ 0 :=
+  ⟨⟨false, 1000, 1000, 10, 10, 1⟩, ⟨[1], [0xa0], 1, 2, 1, 10, 10, 0, []⟩, by decide⟩
+
+theorem legacy_empty_sender_counterexample : ∃ (cfg : Config) (t : Tx),
+    let p := (addTx Variant.legacy (Pool.init cfg) t).1
+    p.byHash = [] ∧ p.cntSenders ≠ 0 :=
+  ⟨⟨false, 1000, 1000, 10, 0, 1⟩, ⟨[1], [0xa0], 1, 2, 1, 10, 10, 0, []⟩, by decide⟩
+
+theorem legacy_ghost_counterexample : ∃ (cfg : Config) (ts : List Tx) (g : Tx),
+    let p := ts.foldl (fun p t => (addTx Variant.legacy p t).1) (Pool.init cfg)
+    alookup g.hash p.byHash = some g ∧ ∀ s l, (s, l) ∈ p.lists → g ∉ l := by
+  refine ⟨⟨true, 100000, 100000, 2, 100, 1⟩,
+    [⟨[1], [0xa0], 1, 2, 1, 10, 10, 0, []⟩, ⟨[2], [0xa0], 1, 1, 1, 10, 0, 0, []⟩,
+     ⟨[3], [0xb0], 1, 1, 1, 10, 100, 0, []⟩, ⟨[4], [0xc0], 1, 1, 1, 10, 100, 0, []⟩],
+    ⟨[1], [0xa0], 1, 2, 1, 10, 10, 0, []⟩, ?_⟩
+  dsimp only
+  refine ⟨by decide, ?_⟩
+  have key : ∀ e ∈ ([⟨[1], [0xa0], 1, 2, 1, 10, 10, 0, []⟩, ⟨[2], [0xa0], 1, 1, 1, 10, 0, 0, []⟩,
+     ⟨[3], [0xb0], 1, 1, 1, 10, 100, 0, []⟩, ⟨[4], [0xc0], 1, 1, 1, 10, 100, 0, []⟩] : List Tx).foldl
+       (fun p t => (addTx Variant.legacy p t).1) (Pool.init ⟨true, 100000, 100000, 2, 100, 1⟩) |>.lists,
+      (⟨[1], [0xa0], 1, 2, 1, 10, 10, 0, []⟩ : Tx) ∉ e.2 := by decide
+  exact fun s l hm => key (s, l) hm
+
 end SV.TxCache
